@@ -348,6 +348,26 @@ func checkC19(e *Engine, r *Report) {
 		r.Check(okAm, "typed data › Amino path hands on the whole sign doc", e.Pos(am.Pos()), "WrapTxToTypedData(chainID, signDocBytes)", "the Amino path renders something other than the complete sign-doc bytes")
 	})
 
+	r.Rule("R5", "WHO-MAY-READ", "key encodings round-trip: a private key is turned into bytes or text only by the fixed-width encoder crypto.FromECDSA (32 bytes, left-padded) — repository code never reads the scalar D of an ecdsa.PrivateKey itself (big.Int.Bytes/Text and fmt verbs drop leading zero bytes: about one key in 256 would export as 31 bytes and fail to import)", 0, func() {
+		n := 0
+		for _, f := range e.SrcFuncs(e.RepoOwned) {
+			if IsGenerated(e.File(f.Pos())) || isTestSupportPkg(pkgPathOf(f)) {
+				continue
+			}
+			allInstrs(f, false, func(_ *ssa.Function, _ *ssa.BasicBlock, in ssa.Instruction) {
+				fa, ok := in.(*ssa.FieldAddr)
+				if !ok || fieldName(fa) != "D" || namedTypePath(fa.X.Type()) != "crypto/ecdsa.PrivateKey" {
+					return
+				}
+				n++
+				r.Bad("raw private scalar › "+fnKey(f), e.Pos(fa.Pos()), "the private scalar key.D is read directly: any rendering of the big integer (Bytes, Text, %X/%x, String) is variable-width and loses leading zero bytes, so the encoding does not round-trip for keys whose first byte is 0x00 — use crypto.FromECDSA")
+			})
+		}
+		if n == 0 {
+			r.OK("private keys are encoded by crypto.FromECDSA only", "", "no read of ecdsa.PrivateKey.D in repository code")
+		}
+	})
+
 	r.Rule("R4", "WHO-MAY-CALL", "HD derivation walks every component of the parsed path with hdkeychain.ExtendedKey.Derive (BIP-32); the non-conforming DeriveNonStandard is not called anywhere in the repository", 2, func() {
 		n := 0
 		for _, cs := range e.repoCallSites(func(c ssa.CallInstruction) bool {
